@@ -280,7 +280,10 @@ def run(ctx: common.Ctx):
             continue
         if ci % 3 == 0 and len(jobs) < (300 if ctx.thorough else 40):
             jobs.append(cexec.Job(tag=f"call{ci}", expr=pt.tag_all_calls_to_be_inlined(texpr), runs=[inp]))
-            meta.append((ci, ref, info))
+            # (a float32 / complex64 input makes every value that depends on it single precision, whatever the result
+            #  dtype: C's sinf and NumPy's float32 sin differ in the last place)
+            meta.append((ci, ref, dict(info, _single=any(p.dtype in (np.dtype("float32"), np.dtype("complex64"))
+                                                          for p in phs.values()))))
         if ci % 25 == 0:
             ctx.sample({"batch": "calls", "case": ci, "info": info, "placeholders": sorted(phs)})
     ctx.note_batch("trace-and-inline-vs-direct-application", cases, dis, exhaustive=False, **stats)
@@ -288,6 +291,7 @@ def run(ctx: common.Ctx):
     res = cexec.run_jobs(ctx, jobs)
     cdis = 0
     for (ci, ref, info), r in zip(meta, res):
+        single = info.pop("_single", False)
         if r.error:
             if str(r.stage).startswith("c-"):
                 continue
@@ -297,7 +301,7 @@ def run(ctx: common.Ctx):
                           {"case": ci, "seed": ctx.seed, "info": info})
             continue
         out = r.outputs[0]
-        if any(k in out and not close(out[k], ref[k], exact=False) for k in ref):
+        if any(k in out and not close(out[k], ref[k], exact=False, single=single) for k in ref):
             cdis += 1
             ctx.violation("calls:generated-code-value-differs", f"case {ci}: generated code for the graph with calls differs",
                           {"case": ci, "seed": ctx.seed, "info": info})
